@@ -317,6 +317,13 @@ def c02e(ctx):
                 ctx.fail(o, Site(b, rb, 0), "%s can return after spawning repair tasks without having joined them all: the caller would trust unrepaired callees" % fn)
 
 
+def _vn(prog, adt, v):
+    try:
+        return prog.adts[adt]["variants"][int(v)]["name"]
+    except Exception:
+        return str(v)
+
+
 def c02f(ctx):
     """A Snapshot memoises the columns it has read under its query lock.  upgrade_to_exclusive drops the shared lock and
     waits for the exclusive one: in that gap another task may publish the node, so every memoised column must be
@@ -351,6 +358,14 @@ def c02f(ctx):
         fl = [e[2:].split("#")[0] for e in a.node["lhs"][1] if e.startswith("f:")]
         if fl and is_none(a) and b.site_dominates(acq[0], a):
             reset[fl[-1]] = a
+    # the re-acquisition is skipped only when the lock is already exclusive
+    rets = b.returns()
+    skip = b.reachable([0], removed_nodes=[acq[0].bb])
+    if any(t in skip for t in rets):
+        ex_edges = [(sb, tb) for sb, tb, v, c in df.variant_edges(b, "query_lock_manager::QueryLock") if _vn(prog, c.adt, v) == "Exclusive"]
+        skip2 = b.reachable_fs([0], removed_nodes=[acq[0].bb], removed_edges=ex_edges, flags_from=[tb for sb, tb in ex_edges])
+        if not ex_edges or any(t in skip2 for t in rets):
+            ctx.fail(o, acq[0], "upgrade_to_exclusive can return without holding the exclusive lock on a path other than `the lock is already Exclusive`")
     for f in fields:
         if f not in reset:
             ctx.fail(o, acq[0], "upgrade_to_exclusive keeps the memoised `%s` across the gap between the shared and the exclusive lock: what is read from it afterwards may "
